@@ -106,8 +106,38 @@ def r4(run):
         ok_edges = q.call_result_edges(b, c, ok=True)
         rets = [bb for (bb, e, raw) in b.return_defs() if strip(e)[0] == "agg" and strip(e)[1].get("variant") == "Ok" and any(
             y[0] == "call" and y[1].fn.endswith("Builder::body") for y in walk(e))]
-        run.ob(IMPORT + "|ok-only-after-store", bool(ok_edges) and all(q.dominated(b, bb, via_edges=ok_edges) for bb in rets) and bool(rets), c.sp,
-               "the 200 response is produced only on the Ok edge of insert_frame", reason="import-acknowledged-without-store")
+        all_ok_edges = [e for c2 in ins for e in q.call_result_edges(b, c2, ok=True)]
+
+        def after_loop_that_stores_each(rb):
+            """a multi-frame import: the 200 is produced when the loop over the decoded lines is exhausted, every round of which
+            passed the Ok edge of insert_frame (a failed store leaves the loop towards an error answer)"""
+            NEXT = "core::iter::traits::iterator::Iterator::next"
+            for n1 in q.live_calls(b, NEXT):
+                if any("tracing" in str(m) for m in (n1.exp or [])):
+                    continue
+                some_e, none_e = [], []
+                for bb2, si2 in b.switches():
+                    cnd = strip(si2["cond"])
+                    if si2["kind"] == "variant" and cnd[0] == "call" and q.same_call(cnd[1], n1):
+                        some_e += q.edge_triples(b, bb2, lambda m: m == "Some")
+                        none_e += q.edge_triples(b, bb2, lambda m: m == "None" or (isinstance(m, tuple) and "None" in m))
+                if not some_e or not none_e or not q.dominated(b, rb, via_edges=none_e):
+                    continue
+                for c2 in ins:
+                    if not q.reaches(b, n1.bb, c2.bb):
+                        continue
+                    if n1.bb in b.reachable_blocks([t for (_, t, _) in some_e], removed_blocks=[c2.bb]):
+                        continue      # a line can go round without being stored
+                    ee = q.call_result_edges(b, c2, ok=False)
+                    bad = b.reachable_blocks([t for (_, t, _) in ee]) if ee else {n1.bb}
+                    if n1.bb in bad or rb in bad:
+                        continue      # a failed store goes on / is acknowledged
+                    return True
+            return False
+        if c is ins[0]:
+            run.ob(IMPORT + "|ok-only-after-store", bool(all_ok_edges) and bool(rets) and all(q.dominated(b, bb, via_edges=all_ok_edges) or after_loop_that_stores_each(bb) for bb in rets), c.sp,
+                   "the 200 response is produced only on the Ok edge of insert_frame (for a multi-frame body: after a loop each round of which stored its frame)",
+                   reason="import-acknowledged-without-store")
 
 
 def r5(run):
